@@ -26,6 +26,51 @@ Definition frame_bytes (k : Z) (cmd : bytes) : bytes :=
   prefix ++ 42%N :: dec_N (checksum prefix).
 Definition m110_cmd : bytes := [77; 49; 49; 48; 32; 78; 45; 49]%N.        (* "M110 N-1" *)
 
+(* the firmware's reading of a line: N, optional minus and digits, one blank, the command, a star, digits; the LAST
+   star of the line separates the checksum (greedy match) *)
+Definition is_digit (c : N) : bool := ((48 <=? c) && (c <=? 57))%N.
+Fixpoint val_digits (acc : N) (l : bytes) : N :=
+  match l with [] => acc | c :: l' => val_digits (acc * 10 + (c - 48))%N l' end.
+Definition parse_N (l : bytes) : option N :=
+  match l with [] => None | _ => if forallb is_digit l then Some (val_digits 0 l) else None end.
+Definition parse_Z (l : bytes) : option Z :=
+  match l with
+  | 45%N :: r => option_map (fun n => (- Z.of_N n)%Z) (parse_N r)
+  | _ => option_map Z.of_N (parse_N l)
+  end.
+Fixpoint split_last (c : N) (l : bytes) : option (bytes * bytes) :=
+  match l with
+  | [] => None
+  | x :: l' => match split_last c l' with
+               | Some (a, b) => Some (x :: a, b)
+               | None => if (x =? c)%N then Some ([], l') else None
+               end
+  end.
+Fixpoint split_first (c : N) (l : bytes) : option (bytes * bytes) :=
+  match l with
+  | [] => None
+  | x :: l' => if (x =? c)%N then Some ([], l')
+               else match split_first c l' with Some (a, b) => Some (x :: a, b) | None => None end
+  end.
+(* (line number, command, checksum matches) *)
+Definition fw_parse (l : bytes) : option (Z * bytes * bool) :=
+  match split_last 42 l with
+  | Some (prefix, cs) =>
+      match prefix with
+      | 78%N :: body =>
+          match split_first 32 body with
+          | Some (num, cmd) =>
+              match parse_Z num, parse_N cs with
+              | Some k, Some c => Some (k, cmd, (c =? checksum prefix)%N)
+              | _, _ => None
+              end
+          | None => None
+          end
+      | _ => None
+      end
+  | None => None
+  end.
+
 (* ---------------- protocol level ---------------- *)
 Section Protocol.
   Variable C : Type.                              (* a job command (stripped, non-empty) *)
